@@ -10,6 +10,7 @@ from ..core import (AnalysisError, short, unparse, iter_own, call_name, call_rec
                     is_self_attr, atomic_facts, parents, enclosing_stmt, enclosing_func,
                     always_exits, names_in)
 
+from .. import symex
 MUTATORS = {'append', 'extend', 'insert', 'pop', 'remove', 'clear', 'sort', 'reverse',
             'update', 'setdefault', 'popitem', 'add', 'discard', 'appendleft', '__setitem__'}
 
@@ -55,6 +56,22 @@ def _self_rooted_attr(node, selfname='self'):
     return None
 
 
+def _own_and_closures(fn, selfname):
+    """the nodes of fn and of the functions / lambdas nested in it that still see fn's `self` (closures that
+    do not re-bind the name): a write through self in a local helper is a write of the method"""
+    stack = list(ast.iter_child_nodes(fn))
+    while stack:
+        n = stack.pop()
+        if isinstance(n, (ast.FunctionDef, ast.AsyncFunctionDef, ast.Lambda)):
+            a = n.args
+            if selfname in {x.arg for x in a.args + a.kwonlyargs + getattr(a, 'posonlyargs', [])}:
+                continue
+        elif isinstance(n, ast.ClassDef):
+            continue
+        yield n
+        stack.extend(ast.iter_child_nodes(n))
+
+
 def _writes_in(fn, selfname='self'):
     """Yield (node, attr, kind) for writes rooted at self inside fn: stores, augmented
     assignments, deletes, in-place mutator calls, setattr(self, ...), and the same through a
@@ -65,7 +82,7 @@ def _writes_in(fn, selfname='self'):
             a = _self_rooted_attr(st.value, selfname)
             if a is not None and isinstance(st.value, (ast.Attribute, ast.Subscript)):
                 alias[st.targets[0].id] = a
-    for n in iter_own(fn):
+    for n in _own_and_closures(fn, selfname):
         if isinstance(n, (ast.Assign, ast.AugAssign, ast.Delete)):
             tg = n.targets if isinstance(n, (ast.Assign, ast.Delete)) else [n.target]
             for t in tg:
@@ -352,6 +369,26 @@ def run(ctx):
         if name not in meths:
             raise AnalysisError('anchor vanished: LatexContextDb.' + name)
         c14._check_copy_on_derive(sub, cm, name, meths[name])
+        # helpers called on self from a deriving method: a write through self in them is a write to the source
+        # database; tolerated only on a path that has found a name collision (`x in self.<list>`), which is how the
+        # automatic category name skips names already taken
+        for hc in [c_ for c_ in iter_own(meths[name]) if isinstance(c_, ast.Call) and is_self_attr(c_.func)
+                   and c_.func.attr in meths and c_.func.attr not in ('extended_with', 'filtered_context')]:
+            h = meths[hc.func.attr]
+            for node, a, kind in _writes_in(h):
+                facts = set()
+                for t_, p_ in atomic_facts(node):
+                    for a_, ap_ in symex._atoms(t_, p_):
+                        facts.add((unparse(a_), ap_))
+                collide = any((ap_ and ' in self.' in t_ and ' not in ' not in t_) or ((not ap_) and ' not in self.' in t_)
+                              for t_, ap_ in facts)
+                ctx.decide('R09d2', collide, cm, enclosing_stmt(node),
+                           '%s (called by %s) writes self.%s only after a name collision' % (h.name, name, a),
+                           '%s calls self.%s(), which writes self.%s on a path without a name collision (%s): every derivation '
+                           '-- one happens whenever a macro or environment extends the context during a parse -- changes the '
+                           '(frozen, shared) database it derives from, so identical parses leave different state behind and '
+                           'produce differently named categories' % (name, h.name, a, kind),
+                           construct='%s -> %s: write of self.%s' % (name, h.name, a))
 
     ctx.assume('user-supplied callbacks, custom parsers and custom specs are outside the rule')
     ctx.assume('receiver typing of non-self stores uses the repository\'s parameter-name '
